@@ -15,6 +15,7 @@
     (range check by integer arithmetic).
 -/
 import Csvq.Model.Escape
+import Csvq.Model.Unicode
 namespace Csvq.Scan
 open Csvq.Esc
 
@@ -28,6 +29,11 @@ structure Classes where
 def asciiClasses : Classes where
   isLetter c := ('a' ≤ c && c ≤ 'z') || ('A' ≤ c && c ≤ 'Z')
   isDigit c := '0' ≤ c && c ≤ '9'
+
+/-- unicode.IsLetter / unicode.IsDigit of the toolchain's Unicode tables (Model/Unicode.lean, Gen/UnicodeTables.lean) -/
+def unicodeClasses : Classes where
+  isLetter c := Uni.isLetter c.toNat
+  isDigit c := Uni.isDigit c.toNat
 
 /-- unicode.IsSpace (the White_Space property; identical in every Unicode version Go has shipped) -/
 def isSpace (c : Char) : Bool :=
